@@ -109,6 +109,31 @@ def exn_code(exc: BaseException) -> int:
     return t["OtherError"]
 
 
+import contextlib as _ctx
+
+
+@_ctx.contextmanager
+def debug_logging():
+    """Run a block with the process's logging set as the tools' --debug option sets it (root logger at DEBUG, records discarded)."""
+    import logging
+    root = logging.getLogger()
+    kl = logging.getLogger("kskm")
+    old = (root.level, logging.root.manager.disable, root.handlers[:], kl.propagate, kl.level)
+    logging.disable(logging.NOTSET)
+    root.setLevel(logging.DEBUG)
+    root.handlers = [logging.NullHandler()]
+    kl.propagate = True
+    kl.setLevel(logging.NOTSET)
+    try:
+        yield
+    finally:
+        root.setLevel(old[0])
+        logging.disable(old[1])
+        root.handlers = old[2]
+        kl.propagate = old[3]
+        kl.setLevel(old[4])
+
+
 def run_impl(f, *a, **kw):
     """Run implementation code; returns ('ok', value) or ('exc', code, classname)."""
     try:
